@@ -18,7 +18,8 @@ RULE = ("1-3 models, each with a plain Environment or a SpaceWorld / DiscreteWor
         "detach outside / join / leave / re-join / listing query / rejected join / rejected leave, interleaved across "
         "models; in ~15% of runs also attach / detach while resident with or without manual (de)registration; "
         "non-trivial = >=2 component types in use, >=1 agent left while another agent with one of its types stayed, and "
-        ">=1 re-join; distinct = sequence of (model, op, per-type listing sizes)")
+        ">=1 re-join; distinct = sequence of (model, op, per-type listing sizes)"
+        "; also: models stepped / completed in mid-history, worlds that are not model.environment, a container-like component that is falsy while empty")
 COMPONENTS = {"real": ["ECAgent.Core.Environment.add_agent / remove_agent", "SystemManager.register_component / "
                        "deregister_component / get_components / __getitem__", "Agent.add_component / remove_component",
                        "SpaceWorld / DiscreteWorld / LineWorld / GridWorld add_agent / remove_agent"],
